@@ -13,7 +13,7 @@
   k<hex> reset_with_key, F finalize_reset (emit), G<hex> finalize_reset_with_key (emit), d finalize of a clone (emit),
   T<t0>:<t1> hook verif_set_counter (decimal words; for the Spec only directly after creation / reset: start counter).
   A refusal of the crate (assert) is `PANIC` for the whole line.
-  `impl` = Impl.Blake2 (checked profile = the dev build of the harness), `spec` = Spec.Blake2 on the abstract state
+  `impl` = Impl.Blake2 (`.wrapping` = the current code: `increment_counter` uses `wrapping_add`), `spec` = Spec.Blake2 on the abstract state
   (key, bytes since last reset).
 -/
 import CxVerif.Util.Proto
@@ -23,6 +23,7 @@ namespace Cx.Driver.Blake2
 open Cx
 open Cx.Spec.Blake2 (Word Params)
 
+/-- the code as it is now (`wrapping_add` in `increment_counter`, /repo commit ca094bf) -/
 def pr : Impl.Blake2.Profile := .wrapping
 
 def orPanic : Option String → String
